@@ -83,7 +83,8 @@ func runC13(p *eng.Prog, r *eng.Report, tier string) {
 		}
 		ret := ""
 		for _, rs := range f.Graph().Returns {
-			ret = f.Norm(rs.Results[0], nil)
+			rp, _ := f.Graph().Where(rs)
+			ret = f.Norm(retResults(f, rs)[0], &rp)
 		}
 		c.r.Check("C13.1", f, "address swap", "K: replies swap To and From (parallel assignment)", f.Pos(), swap, "no From, To = To, From")
 		c.r.Check("C13.1", f, "reply type", "K: the reply type is "+k.typ, f.Pos(), typ, "type not set to "+k.typ)
